@@ -134,38 +134,71 @@ def run(coro_fn, *a, timeout=120, **kw):
 # ------------------------------------------------------------------ storages
 
 
-class PumpQueue:
-    """Replacement for the writer's SimpleQueue: get() returns None when the
-    budget is used up or the queue is empty, which makes WriterThread.run() return."""
+class _QueueItems:
+    """len()/bool()/clear() view of the wrapped queue (what the checks use to look at / drop the backlog)"""
 
-    def __init__(self):
-        self.items = collections.deque()
+    def __init__(self, inner):
+        self.inner = inner
+
+    def __len__(self):
+        return self.inner.qsize()
+
+    def __bool__(self):
+        return not self.inner.empty()
+
+    def clear(self):
+        import queue
+
+        try:
+            while True:
+                self.inner.get_nowait()
+        except queue.Empty:
+            pass
+
+
+class PumpQueue:
+    """Wrapper around the writer thread's OWN queue object (whatever class the storage built - the queue discipline is the
+    relay's): get() returns None when the budget is used up or the queue is empty, which makes WriterThread.run() return."""
+
+    def __init__(self, inner=None):
+        import queue
+
+        self.inner = inner if inner is not None else queue.SimpleQueue()
+        self.items = _QueueItems(self.inner)
         self.budget = 0
 
-    def put(self, x, block=True, timeout=None):
-        self.items.append(x)
+    def put(self, x, *a, **kw):
+        self.inner.put(x, *a, **kw)
+
+    def put_nowait(self, x):
+        self.inner.put(x)
 
     def get(self, block=True, timeout=None):
-        if self.budget <= 0 or not self.items:
+        import queue
+
+        if self.budget <= 0:
+            return None
+        try:
+            x = self.inner.get_nowait()
+        except queue.Empty:
             return None
         self.budget -= 1
-        return self.items.popleft()
+        return x
 
     def get_nowait(self):
         import queue
 
-        if self.budget <= 0 or not self.items:
+        if self.budget <= 0:
             raise queue.Empty()
+        x = self.inner.get_nowait()
         self.budget -= 1
-        return self.items.popleft()
-
-    put_nowait = put
+        return x
 
     def qsize(self):
-        return len(self.items)
+        return self.inner.qsize()
 
     def empty(self):
-        return not self.items
+        return self.inner.empty()
 
 
 _kv_counter = itertools.count()
@@ -271,7 +304,7 @@ class Rig:
             s.query_pool.shutdown(wait=False)
             s.query_pool = InlineExecutor()
             await s.setup()
-            q = PumpQueue()
+            q = PumpQueue(s.writer_thread.queue)
             s.writer_thread.queue = q
             s.writer_queue = q
         else:
